@@ -33,6 +33,7 @@ ML210 == <<2, 1, 0>>
 ML220 == <<2, 2, 0>>
 ML110 == <<1, 1, 0>>
 ML111 == <<1, 1, 1>>
+AllConfigs == {"explicit", "zero", "default"}
 Both == {"percontext", "reject"}
 One == {"percontext"}
 =============================================================================
